@@ -243,12 +243,20 @@ func (e *Exec) execUnOp(x *ssa.UnOp) Val {
 			e.Unsupported("load through non-pointer")
 		}
 		v := e.load(p)
-		if t, ok := v.(*Term); ok {
-			return e.vc.Define(x.Name(), t)
+		if mt, ok := v.(*Term); ok && !e.fieldNullable(p) {
+			if _, isMap := types.Unalias(x.Type()).Underlying().(*types.Map); isMap {
+				e.vc.Assume(e.g, IntLt(IntLit(0), mt))
+				e.vc.Trusted["maps loaded from struct fields are initialised (non-nil) unless the field is declared nullable"] = true
+			}
 		}
-		if lp, ok := v.(*Ptr); ok && e.fieldNonNil(p) {
+		if lp, ok := v.(*Ptr); ok && lp.Ref != nil && !e.fieldNullable(p) {
+			// pointers loaded from memory are assumed non-nil unless the field is declared `nullable`
 			lp.NonNil = true
 			e.vc.Assume(e.g, IntLt(IntLit(0), lp.Ref))
+			e.vc.Trusted["pointers loaded from struct fields / slice elements are non-nil when dereferenced, except fields declared nullable in a //@ type block"] = true
+		}
+		if t, ok := v.(*Term); ok {
+			return e.vc.Define(x.Name(), t)
 		}
 		return v
 	case token.NOT:
@@ -687,6 +695,11 @@ func (e *Exec) execTypeAssert(x *ssa.TypeAssert) Val {
 	} else {
 		ok = Eq(IfTag(i), IntLit(typeID(at)))
 		val = e.unbox(i, at)
+		if pv, isP := val.(*Ptr); isP && pv.Ref != nil {
+			e.vc.Assume(e.g, Implies(ok, IntLt(IntLit(0), pv.Ref)))
+			pv.NonNil = true
+			e.vc.Trusted["a pointer held in an interface value is non-nil (typed nil pointers are not boxed)"] = true
+		}
 	}
 	if x.CommaOk {
 		okd := e.vc.Define("ok", ok)
@@ -835,7 +848,7 @@ func (e *Exec) allocBound(n *Term, what string) {
 		}
 	}
 	bound := BVAdd(BVMul(BVLitI(64, 64), total), BVLitI(4096, 64))
-	e.check("alloc", And(SGe(n, bv64zero), SLe(n, bound)), what+": allocation not bounded by 64*|input|+4096")
+	e.check("alloc", SLe(n, bound), what+": allocation not bounded by 64*|input|+4096")
 }
 
 func (e *Exec) execLookup(x *ssa.Lookup) Val {
@@ -858,6 +871,10 @@ func (e *Exec) execLookup(x *ssa.Lookup) Val {
 		e.vc.Assume(e.g, invOf(m.Elem(), val, e.st.ac))
 	}
 	v := e.fromTerm(val, m.Elem(), false)
+	if pv, ok := v.(*Ptr); ok {
+		e.vc.Assume(e.g, Implies(present, IntLt(IntLit(0), pv.Ref)))
+		e.vc.Trusted["pointer values stored in maps are non-nil"] = true
+	}
 	if x.CommaOk {
 		return Tuple{v, present}
 	}
@@ -913,5 +930,11 @@ func (e *Exec) execNext(x *ssa.Next) Val {
 	if hasInv(m.Elem()) {
 		e.vc.Assume(True, invOf(m.Elem(), val, e.st.ac))
 	}
-	return Tuple{okb, e.fromTerm(k, m.Key(), false), e.fromTerm(val, m.Elem(), false)}
+	mvv := e.fromTerm(val, m.Elem(), false)
+	if pv, ok := mvv.(*Ptr); ok {
+		pv.NonNil = true
+		e.vc.Assume(True, Implies(okb, IntLt(IntLit(0), pv.Ref)))
+		e.vc.Trusted["pointer values stored in maps are non-nil"] = true
+	}
+	return Tuple{okb, e.fromTerm(k, m.Key(), false), mvv}
 }
